@@ -340,10 +340,24 @@ class Normalizer:
         return out
 
     # ------------------------------------------------------------------ constants
+    def _stored_attrs(self) -> set:
+        """attribute names that some code of the package stores through an object (`x.name = ...`, setattr(x, "name", ..))"""
+        if not hasattr(self, "_stored_cache"):
+            out = set()
+            for f in self.p.all_functions(scope_only=False):
+                for n in ast.walk(f.node):
+                    if isinstance(n, ast.Attribute) and isinstance(n.ctx, (ast.Store, ast.Del)):
+                        out.add(n.attr)
+                    elif isinstance(n, ast.Call) and getattr(n.func, "id", None) == "setattr" and len(n.args) >= 2 and isinstance(n.args[1], ast.Constant):
+                        out.add(str(n.args[1].value))
+            self._stored_cache = out
+        return self._stored_cache
+
     def _subst_constants(self, fn: FuncInfo, node):
         keep = rule_named_constants()
         bound = _bound_names(node)
         p, mod, cls = self.p, fn.module, fn.cls
+        self_stored = self._stored_attrs()
 
         def literal_for(e):
             if isinstance(e, ast.Name) and e.id not in bound and e.id not in keep and isinstance(e.ctx, ast.Load):
@@ -364,8 +378,11 @@ class Normalizer:
                             continue
                         if e.attr in c.class_assigns:
                             v = c.class_assigns[e.attr][0]
-                            # only plain private / upper-case tables, never properties or attribute maps
-                            if v is not None and _is_literal(v) and (e.attr.isupper() or e.attr.startswith("_")) and not e.attr.startswith("_attribute_map"):
+                            # only constant TABLES / strings that no code ever re-binds on an instance or class (a class-level
+                            # `_x = None` is the default of an instance attribute, not a constant), never attribute maps
+                            if v is not None and _is_literal(v) and not (isinstance(v, ast.Constant) and not isinstance(v.value, str)) \
+                                    and (e.attr.isupper() or e.attr.startswith("_")) and not e.attr.startswith("_attribute_map") \
+                                    and e.attr not in self_stored:
                                 return v
                             return None
             return None
